@@ -384,6 +384,12 @@ def cases(rng, thorough=False):
                 return o
             add(f"{kind} whole extent {pad} type mismatch", single(rng, pool_i32, ifm=(1, 4, 4, 4)))
         add(f"{kind} stride 4x4 ofm 1x1", single(rng, lambda b, x: b.pool(x, kind, (4, 4), (4, 4), "VALID"), ifm=(1, 4, 4, 4)))
+        # kernel == stride > 3 coinciding with ONE extent of the IFM only (or with the transposed extents): not the whole-extent
+        # pooling that fixup_pool_strides rewrites, so the documented stride range keeps it on the CPU (seeded change C16-r6m1)
+        for ih, iw in ((8, 4), (4, 8), (12, 4), (4, 12)):
+            add(f"{kind} k=s=4x4 on {ih}x{iw}", single(rng, lambda b, x: b.pool(x, kind, (4, 4), (4, 4), "VALID"), ifm=(1, ih, iw, 4)))
+        add(f"{kind} k=s=4x6 on 6x4 (transposed extents)", single(rng, lambda b, x: b.pool(x, kind, (4, 6), (4, 6), "SAME"), ifm=(1, 6, 4, 4)))
+        add(f"{kind} k=s=5x5 on 5x10", single(rng, lambda b, x: b.pool(x, kind, (5, 5), (5, 5), "VALID"), ifm=(1, 5, 10, 4)))
     # ---- fully connected ----------------------------------------------------------------------------------------
     for ifm in ((1, 16), (4, 16), (2, 2, 16), (2, 1, 1, 16), (1, 2, 2, 16)):
         add(f"fc ifm={ifm}", single(rng, lambda b, x: b.fc(x, 8), ifm=ifm))
@@ -431,6 +437,23 @@ def cases(rng, thorough=False):
             y = b.input([1, 4, 4, 8])       # its own random quantisation: differs from the OFM's
             return b.binary(kind, x, y)
         add(f"{kind} quantisation mismatch", single(rng, mm, ifm=(1, 4, 4, 8)))
+
+        # scales that differ by one or a few float32 steps (and equal zero points): "must match" is exact equality of the
+        # stored values, so these stay on the CPU (seeded change C16-r6m2: a tolerant is_scaling_equal)
+        for steps in (1, 3, 40):
+            def mm_ulp(b, x, kind=kind, steps=steps, on_output=True):
+                xt = b.t(x)
+                y = b.input(list(xt.shape))
+                yt = b.t(y)
+                yt.scales, yt.zps = list(xt.scales), list(xt.zps)
+                o = b.binary(kind, x, y)
+                sc = np.float32(xt.scales[0])
+                for _ in range(steps):
+                    sc = np.nextafter(sc, np.float32(np.inf), dtype=np.float32)
+                b.t(o if on_output else y).scales = [float(sc)]
+                return o
+            add(f"{kind} OFM scale {steps} float32 step(s) above the inputs'", single(rng, mm_ulp, ifm=(1, 4, 4, 8)))
+            add(f"{kind} second input scale {steps} float32 step(s) above", single(rng, lambda b, x, f=mm_ulp: f(b, x, on_output=False), ifm=(1, 4, 4, 8)))
 
     def mixed_types(b, x):
         y = b.input([1, 4, 4, 8], "uint8")
